@@ -226,9 +226,23 @@ class Crate:
         self.statics = []
         self.unsafe_blocks = []
         self.file = None
+        self._stripped = None
 
     def fn(self, path):
-        return self.fns.get(path)
+        f = self.fns.get(path)
+        if f is None:
+            # tolerate renamed generic parameters / lifetimes: match on the path with `<...>` segments removed
+            if self._stripped is None:
+                from .mirutil import strip_generics
+                idx = {}
+                for k, v in self.fns.items():
+                    idx.setdefault(strip_generics(k), []).append(v)
+                self._stripped = idx
+            from .mirutil import strip_generics
+            c = self._stripped.get(strip_generics(path), [])
+            if len(c) == 1:
+                return c[0]
+        return f
 
     def find_fns(self, suffix):
         return [f for f in self.fn_list if f.path.endswith(suffix)]
